@@ -13,12 +13,18 @@ func VerifC29Decode() {
 		vObserve("used", uint64(used))
 		vAssert("le4bytes", used <= 4)
 		vAssert("leMax", v <= 268435455)
+		// the statement does not require the decoder to refuse non-minimal encodings (e.g. 80 00),
+		// only that what the codec writes is minimal: re-encoding the decoded value must not be longer.
 		var out bytes.Buffer
 		encodeLength(&out, int64(v))
-		vAssert("canonical", bytes.Equal(out.Bytes(), b[:used]))
+		vAssert("reencode-not-longer", out.Len() <= used)
+		d2, _, err2 := DecodeLength(&out)
+		vAssert("reencode-roundtrip", err2 == nil && d2 == v)
 	} else {
 		vReach("reject")
 	}
+	// a fifth byte is never consumed, whatever the outcome
+	vAssert("consumed-le4", used <= 4)
 }
 
 // C29(a): value -> bytes -> value, whole 28-bit range symbolically.
